@@ -265,6 +265,7 @@ func IsPermanentError(err error) bool {
 
 	permanentPatterns := []string{
 		"revision mismatch",
+		"wrong last sequence",
 		"key not found",
 		"permission denied",
 		"bucket not found",
